@@ -220,6 +220,10 @@ def run(ctx):
         ctx.fail("corr:tree", "model and implementation disagree on a whole tree",
                  {"kind": "broken-correspondence", "theorem": "C04 (model/implementation correspondence)", "case": coq_meta[i],
                   "model": RL.coq_show(ctx, "corr", "run_tcase tb", coq_cases[i])}, concrete=False)
+    changed = VT.table_diff()
+    if changed:
+        ctx.fail("C04:history:table-mutated", f"validation changed the live rule table (differs from rules.json): {changed[:5]}",
+                 {"kind": "impl-vs-statement", "rules_changed": changed})
     if not built:
         ctx.obligations_failed("validated adversarial mutations of EML trees in both modes")
 
